@@ -26,7 +26,7 @@ def run(chk):
     quick = chk.tier == "quick"
     chk.rule = ("event scripts (arrive / finish ok / finish with error / cancel anywhere) over 1-4 peers, limits 0-5, both wait modes, "
                 "length up to 200, applied one by one to the real layer around a gate-controlled service; each script ends by draining "
-                "everything and probing max+1 fresh arrivals per peer; distinct = script text; non-trivial = at least one request waited or was rejected")
+                "everything and probing max+1 fresh arrivals per peer; first bursts of never-seen peers and bursts of 300-1500 distinct peers at once (each peer must get its own slots); distinct = script text; non-trivial = at least one request waited or was rejected")
     if not chk.prepare():
         return
     cases = []
@@ -98,6 +98,12 @@ def run(chk):
         mode, maxn, k, npeers = rng.choice(["block", "err"]), rng.choice([1, 1, 2, 3]), rng.randrange(2, 7), rng.randrange(1, 4)
         bursts.append("inflightburst %s %d %d %d" % (mode, maxn, k, npeers))
         bmodels.append("inflight %s %d %s" % (mode, maxn, " ".join("a%d.%d" % (p, (p - 1) * k + j) for p in range(1, npeers + 1) for j in range(k))))
+    # many peers at once (hundreds of distinct identities, a few requests each): one peer's load never consumes another's slots
+    for i in range(4 if quick else 24):
+        rng = chk.rng
+        mode, maxn, k, npeers = rng.choice(["block", "err"]), rng.choice([1, 2]), rng.randrange(1, 4), rng.choice([300, 700, 1500 if not quick else 400])
+        bursts.append("inflightburst %s %d %d %d" % (mode, maxn, k, npeers))
+        bmodels.append("inflight %s %d %s" % (mode, maxn, " ".join("a%d.%d" % (p, (p - 1) * k + j) for p in range(1, npeers + 1) for j in range(k))))
     for c, a, m in zip(bursts, run_impl("layers", bursts), run_model(bmodels)):
         chk.evaluations += 1
         chk.nontriv(c)
@@ -111,8 +117,12 @@ def run(chk):
             f = dict(x.split("=") for x in rest.split(","))
             inside, refused = int(f["inside"]), int(f["refused"])
             m_inside = len([x for x in m.split() if x.startswith("a%s." % p[1:]) and x.split(":")[1].startswith("E")])
+            chk.count("burst-peers")
             if inside > maxn:
                 chk.monitor_fail("first burst of a new peer: %d requests of %s are inside the wrapped service, the limit is %d" % (inside, p, maxn), dict(case=c, impl=a))
+            elif inside < min(k, maxn):
+                chk.monitor_fail("peer %s sent %d request(s) and has only %d inside the wrapped service although its limit is %d: its slots are used by somebody else (%d peers active)" % (p, k, inside, maxn, int(t[4])), dict(case=c, impl=a[:3000]))
+                break
             elif (mode == "err" and refused != k - inside) or (mode == "block" and refused != 0):
                 chk.monitor_fail("first burst of a new peer: %d inside, %d refused of %d (mode %s)" % (inside, refused, k, mode), dict(case=c, impl=a))
             elif inside != m_inside:
